@@ -48,6 +48,8 @@ RULES = {
     "E5": "proof blocks at function entry / before or after an anchored line; loop invariants on the n-th loop",
     "E15": "`const N: T = e;` whose initialiser calls a function Verus cannot evaluate in spec mode -> "
            "`exec const N: T ensures N == <value> { e }`; the value is proved from e, not assumed",
+    "E8": "monomorphisation: a generic parameter (`mono T=i128`) or `Self` (`selftype i128`) is replaced textually by the "
+          "concrete type named in the directive; the generic bound list is dropped",
     "E13": "`x op= e` on signed integers for op in {/,%} -> `x = x op e`",
 }
 
@@ -442,7 +444,7 @@ def rewrite_derive(attr_text):
 # directive parsing
 
 SECTION_KW = ("ret", "requires", "ensures", "decreases", "recommends", "entry", "loop", "before", "after",
-              "subst", "sigsubst", "attr", "name", "opens", "noprove", "unwind")
+              "subst", "sigsubst", "attr", "name", "opens", "noprove", "unwind", "mono", "selftype")
 
 
 class FnDirective:
@@ -561,6 +563,8 @@ def build_signature(src, masked, it, d, em):
         sig = sig.replace(a, b)
         em.substs.append({"fn": d.target, "where": "signature", "from": a, "to": b})
         msig = mask_source(sig)
+    sig = apply_mono(sig, d, em, is_sig=True)
+    msig = mask_source(sig)
     # return type
     ret = (d.get("ret") or [(None, "r")])[0][1].strip() or "r"
     # find params close
@@ -620,15 +624,32 @@ def contract_text(d):
 LOOP_RE = re.compile(r"\b(while|for|loop)\b")
 
 
+def apply_mono(text, d, em, is_sig=False):
+    """E8: monomorphise a generic parameter / Self to a concrete type (textual, word-boundary)."""
+    for (_, spec) in d.get("mono"):
+        var, _, ty = spec.partition("=")
+        var, ty = var.strip(), ty.strip()
+        if is_sig:
+            # drop the generic parameter declaration `<T: Bound>` / `<T>`
+            text = re.sub(r"<\s*%s\s*(:[^<>]*(<[^<>]*>[^<>]*)*)?>" % re.escape(var), "", text, count=1)
+        text = re.sub(r"(?<![A-Za-z0-9_])%s(?![A-Za-z0-9_])" % re.escape(var), ty, text)
+        em.rules.add("E8")
+    for (_, ty) in d.get("selftype"):
+        text = re.sub(r"(?<![A-Za-z0-9_])Self(?![A-Za-z0-9_])", ty.strip(), text)
+        em.rules.add("E8")
+    return text
+
+
 def splice_body(body, d, em, target):
     """body: text from `{` to matching `}` inclusive."""
-    body, applied = rewrite_macros(body)
-    em.rules |= applied
+    body = apply_mono(body, d, em)
     for (a, b) in d.get("subst"):
         if a not in body:
             raise ExtractError("subst anchor lost in %s: %r" % (target, a))
         body = body.replace(a, b)
         em.substs.append({"fn": target, "where": "body", "from": a, "to": b})
+    body, applied = rewrite_macros(body)
+    em.rules |= applied
     lines = body.split("\n")
     # before / after anchors (line based)
     for kw in ("before", "after"):
@@ -716,7 +737,7 @@ def emit_fn(em, d, tmpl_path):
         d0 = find_fn_directive(src_unit, name.strip())
         # the assuming unit may add nothing; contract comes from the proving unit
         dd = FnDirective("assume", d0.target, d.tmpl_line)
-        dd.sections = [s for s in d0.sections if s[0] in ("ret", "requires", "ensures", "recommends", "name", "sigsubst", "attr")]
+        dd.sections = [s for s in d0.sections if s[0] in ("ret", "requires", "ensures", "recommends", "name", "sigsubst", "attr", "mono", "selftype")]
         d = dd
     path, spec = parse_target(d.target)
     if not spec[-1].startswith(("fn ", "impl")) and " " not in spec[-1]:
@@ -784,6 +805,9 @@ def emit_item(em, d):
         em.rules.add("E15")
         em.items.append({"item": d.target, "as": "exec const with ensures"})
         return
+    if it.kind == "struct":
+        # E2: private named fields -> pub (visibility only)
+        lines = [re.sub(r"^(\s+)([a-z_][A-Za-z0-9_]*\s*:)", r"\1pub \2", ln) if not ln.lstrip().startswith(("pub", "//", "#")) else ln for ln in lines]
     if it.kind in ("struct", "enum"):
         keep, have = rewrite_derive(attr_text)
         extra = [t for (_, t) in d.get("attr")]
